@@ -39,6 +39,16 @@ DISPATCH = 'forml.runtime._service.dispatch'
 SERVICE = 'forml.runtime._service'
 
 
+def runner_passthrough(ctx) -> None:
+    """The serving entry point of the runner lets a pipeline error through as it is: the worker decides by the *class* of the
+    error whether one request failed (platform errors: answered to that caller) or the sandbox is broken (anything else: the
+    pool stops).  Wrapping every error into another class turns a missing-feature request into a dead executor."""
+    prog = ctx.prog
+    fn = prog.func('forml.provider.runner.pyfunc:Runner.call')
+    conv = [h for t in core.walk_local(fn.node) if isinstance(t, ast.Try) for h in t.handlers if any(isinstance(r, ast.Raise) and r.exc is not None and not (isinstance(r.exc, ast.Name) and r.exc.id == (h.name or '')) for r in ast.walk(h))]
+    ctx.check(not conv, 'C16.isolation', fn, 'Runner.call re-raises nothing under another class (the worker classifies errors by class)', conv[0] if conv else fn.node, key='runner:passthrough')
+
+
 def pool_size(ctx) -> None:
     """Every configured pool size serves: ``Pool.run`` forks exactly ``self._processes`` workers - the count of the range that
     drives the worker construction is the configured number (``range(n)`` or ``range(a, n + a)``), so a pool of one has its
@@ -380,6 +390,7 @@ def descriptor_cache(ctx) -> None:
 
 def run(ctx) -> None:
     pool_size(ctx)
+    runner_passthrough(ctx)
     # nothing is computed from a loop variable after its loop ran to completion (it would be the last element's value)
     shared.r_staleloop(ctx, ctx.prog.functions([m for m in ctx.prog.modules if m.startswith(('forml.runtime._service',))]))
     request_state(ctx)
